@@ -35,6 +35,9 @@ type RootHooks struct {
 	// SyncConfigFrom passes settings as the configuration file gives them (factors, seconds)
 	// through timeservice.go's syncConfig.
 	SyncConfigFrom func(refImpact, peerImpact, cutoffSec, timeoutSec, intervalSec float64) sync.Config
+	// SCIONClockClients: the clients timeservice.go builds for a SCION reference clock with the
+	// given auth modes (nothing is contacted).
+	SCIONClockClients func(log *slog.Logger, localAddr, remoteAddr udp.UDPAddr, authModes []string, ntskeServer string) []*client.SCIONClient
 	// ClassifySources runs the service's createClocks on a list of configured reference clocks
 	// and SCION peers and reports how many sources ended up in either list.
 	ClassifySources func(refs, peers []string, local string) (nref, npeer int)
